@@ -247,13 +247,13 @@ func (g *Generator) generateTimestampFieldUnmarshal(gf *protogen.GeneratedFile, 
 	case http.TimestampFormat_TIMESTAMP_FORMAT_UNIX_SECONDS:
 		gf.P("var n int64")
 		gf.P("if err := json.Unmarshal(v, &n); err == nil {")
-		gf.P("t := time.Unix(n, 0)")
+		gf.P("t := time.Unix(n, 0).UTC()")
 		gf.P(`raw["`, jsonName, `"], _ = json.Marshal(t.Format(time.RFC3339Nano))`)
 		gf.P("}")
 	case http.TimestampFormat_TIMESTAMP_FORMAT_UNIX_MILLIS:
 		gf.P("var n int64")
 		gf.P("if err := json.Unmarshal(v, &n); err == nil {")
-		gf.P("t := time.UnixMilli(n)")
+		gf.P("t := time.UnixMilli(n).UTC()")
 		gf.P(`raw["`, jsonName, `"], _ = json.Marshal(t.Format(time.RFC3339Nano))`)
 		gf.P("}")
 	case http.TimestampFormat_TIMESTAMP_FORMAT_DATE:
